@@ -20,6 +20,8 @@ from .util import enc, jsonable
 
 VERIF = build.VERIF
 WORK = os.path.join(VERIF, ".work")
+# sensitivity runs against a scratch tree (VERIF_REPO=...) write their evidence/replays elsewhere (VF_OUT=...)
+OUT = os.environ.get("VF_OUT", VERIF)
 NPROC = int(os.environ.get("VERIF_JOBS", "16"))
 
 
@@ -172,7 +174,7 @@ def main(argv):
         if cur is None or len(json.dumps(jsonable(f["case"]))) < len(json.dumps(jsonable(cur["case"]))):
             by_bucket[b] = f
 
-    rdir = os.path.join(VERIF, "replays", pid)
+    rdir = os.path.join(OUT, "replays", pid)
     lines = []
     for kid in sorted(known_hits):
         lines.append("KNOWN-FINDING: property=%s %s %s hits=%d" % (pid, kid, known.get(kid, ""), known_hits[kid]))
@@ -231,12 +233,12 @@ def main(argv):
         "violations": n_viol,
     }
     if not replay:
-        os.makedirs(os.path.join(VERIF, "evidence"), exist_ok=True)
-        tmp = os.path.join(VERIF, "evidence", ".%s.%d.tmp" % (pid, os.getpid()))
+        os.makedirs(os.path.join(OUT, "evidence"), exist_ok=True)
+        tmp = os.path.join(OUT, "evidence", ".%s.%d.tmp" % (pid, os.getpid()))
         with open(tmp, "w") as fh:
             json.dump(ev, fh, indent=1, sort_keys=True)
             fh.write("\n")
-        os.replace(tmp, os.path.join(VERIF, "evidence", "%s.json" % pid))
+        os.replace(tmp, os.path.join(OUT, "evidence", "%s.json" % pid))
 
     for ln in lines:
         print(ln)
